@@ -247,6 +247,7 @@ def rule_C(chk, Fa, Fb, name_a, name_b):
                         chk.violation('C-aes-compact', '%s|lemma' % nm, 'aes (%s): %s' % (nm, lem))
                     else:
                         chk.undecided.append('aes_compact equivalence: bit-level mode not applicable in %s (%s)' % (nm, lem))
+                        return None
                     return n
                 setups[nm] = (summ, inv)
             # one term universe for both configurations (the lemmas above each used their own)
@@ -313,10 +314,12 @@ def run(chk, facts_by_config):
         chk.floor('S-serpent-unroll', n, 'S.x64')
     if 'x64-soft' in facts_by_config and 'x64-alt1' in facts_by_config:
         n = rule_C(chk, facts_by_config['x64-soft'], facts_by_config['x64-alt1'], 'x64-soft', 'x64-alt1')
-        chk.floor('C-aes-compact', n, 'C.x64-soft')
+        if n is not None:
+            chk.floor('C-aes-compact', n, 'C.x64-soft')
     # fixslice64 (x86-64) vs fixslice32 (i686), and vs the software arm on AArch64: the bit-level canonical form abstracts
     # from how the bitsliced state is packed into words
     for other in ('x86', 'a64'):
         if 'x64-soft' in facts_by_config and other in facts_by_config:
             n = rule_C(chk, facts_by_config['x64-soft'], facts_by_config[other], 'x64-soft', other)
-            chk.floor('C-aes-compact', n, 'C.x64-soft~' + other)
+            if n is not None:
+                chk.floor('C-aes-compact', n, 'C.x64-soft~' + other)
